@@ -637,6 +637,10 @@ func runEngHistory(t *testing.T, self string, base string, seed int64, index int
 	if twin != "" {
 		os.RemoveAll(twin)
 	}
+	// one history in three ends with a session: several runs on ONE Project without a fresh load (not told to the model)
+	if len(r.h.Oracles) == 0 && index%3 == 0 {
+		r.randomSession()
+	}
 	return r.h
 }
 
